@@ -77,9 +77,29 @@ def _c19():
             "replay_fn": lk.replay_fn, "replay_file_fn": lk.replay_file}
 
 
+def by_kernel(table, default=None):
+    """replay dispatcher: the native probe belongs to the kernel the failing obligation lives in"""
+    def fn(kb, t, pr, vals, order, rec):
+        f = table.get(kb.kernel, default)
+        return f(kb, t, pr, vals, order, rec) if f else None
+    return fn
+
+
+def by_kernel_file(table):
+    def fn(rec):
+        f = table.get(rec.get("kernel"))
+        if not f:
+            print("no native replay for kernel %s; obligation: %s" % (rec.get("kernel"), rec.get("obligation")))
+            return 2
+        return f(rec)
+    return fn
+
+
 def _c16():
     import charparser as ck
-    return {"builders": [ck.build], "level": "other", "explanation": "escape decoding"}
+    import keywords as kw
+    return {"replay_fn": by_kernel({"keywords": kw.replay_fn}), "replay_file_fn": by_kernel_file({"keywords": kw.replay_file}),
+            "builders": [ck.build, kw.build], "level": "other", "explanation": "escape decoding"}
 
 
 def _c12():
